@@ -2,7 +2,7 @@
 From Coq Require Import QArith List ZArith.
 Import ListNotations.
 Require Import Plinio.Base.Qx.
-Open Scope Q_scope.
+Local Open Scope Q_scope.
 
 (* eff_strength = min(strength/100 + epoch * (strength*99/100) / (n_epochs / 2), strength) *)
 Definition ramp (s e n : Q) : Q := s / 100 + (e * (s * 99 / 100)) / (n / 2).
